@@ -27,7 +27,9 @@ RULE = ("geometry product: sizes {1,2,3,5,9,17}^3 with <= 700 voxels + thin "
         "of that 75 819-element product is run (every 12th element in "
         "quick, every 2nd in thorough, offset by the size index so that "
         "every size, every resolution triple and every target occurs) with "
-        "{stride, average/edge} on uint8; method product: {stride, majority, "
+        "{stride, average/edge} on uint8, plus 6 volumes with an axis of "
+        "257..65537 voxels (some keeping their length between two scales); "
+        "method product: {stride, majority, "
         "average/edge, average/outside 0, average/outside 255} x dtype5 x "
         "channels {1,2} x storage {deep gzip, flat, compressed_segmentation "
         "(uint32/64), sharded(1,1,0)} on 12 geometries covering every "
@@ -58,6 +60,11 @@ RES = [r for r in itertools.product((1, 1.5, 2, 3, 4, 8, 16), repeat=3)
 TARGETS = [2, 4, 8]
 METHODS = [("stride", None), ("majority", None), ("average", None),
            ("average", 0.0), ("average", 255.0)]
+
+
+LONG = [((300, 6, 5), (2, 1, 1), 8), ((5, 6, 700), (1, 1, 4.5), 8),
+        ((257, 2, 2), (1, 1, 1), 64), ((3, 513, 2), (1, 2, 1), 32),
+        ((65537, 1, 2), (1, 1, 1), 64), ((2, 2, 1030), (1, 1, 3), 16)]
 
 
 class Poison:
@@ -270,6 +277,15 @@ def geometry_cases(tier):
                                 "method": method, "outside": outside,
                                 "dtype": "uint8", "channels": 1,
                                 "encoding": "raw", "storage": "deep"})
+    # axes longer than 256 / 65536 voxels, also ones that keep their size
+    # between two scales (coarser voxels along them)
+    for size, res, target in LONG:
+        for method, outside in (METHODS[0], METHODS[2]):
+            out.append({"kind": "geometry", "size": list(size),
+                        "resolution": list(res), "target": target,
+                        "method": method, "outside": outside,
+                        "dtype": "uint8", "channels": 1,
+                        "encoding": "raw", "storage": "flat"})
     return out
 
 
